@@ -206,6 +206,11 @@ func NativeReplay(cfg *CheckConfig, cexPaths []string, race bool, timeoutSec int
 				}
 			}
 		}
+		if found && strings.Contains(out.String(), "WARNING: DATA RACE") {
+			r := res[p]
+			r.Failed = append(r.Failed, "data race reported by the race detector")
+			res[p] = r
+		}
 		if !found {
 			r := ReplayResult{Path: p, Seconds: el}
 			o := out.String()
@@ -490,7 +495,10 @@ func RunCheck(cfg *CheckConfig) *CheckOutcome {
 			paths = append(paths, p.path)
 		}
 		timeout := 20
-		results, logs, err := NativeReplay(cfg, paths, false, timeout)
+		if plan.Race {
+			timeout = 60
+		}
+		results, logs, err := NativeReplay(cfg, paths, plan.Race, timeout)
 		os.WriteFile(filepath.Join(cexDir, "replay.log"), []byte(logs), 0o644)
 		if err != nil {
 			fmt.Println("replay error:", err)
